@@ -8,6 +8,7 @@
 #define SPECTRA_PARTIAL_SVD_SOLVER_H
 
 #include <Eigen/Core>
+#include <memory>  // std::unique_ptr
 #include "../SymEigsSolver.h"
 
 namespace Spectra {
@@ -136,17 +137,21 @@ public:
         m_mat(mat), m_m(mat.rows()), m_n(mat.cols()), m_evecs(0, 0)
     {
         // Determine the matrix type, tall or wide
+        // The operator is owned locally until the solver object has been built,
+        // so that it is released if the solver constructor throws
+        std::unique_ptr<SVDMatOp<Scalar>> op;
         if (m_m > m_n)
         {
-            m_op = new SVDTallMatOp<Scalar, MatrixType>(mat);
+            op.reset(new SVDTallMatOp<Scalar, MatrixType>(mat));
         }
         else
         {
-            m_op = new SVDWideMatOp<Scalar, MatrixType>(mat);
+            op.reset(new SVDWideMatOp<Scalar, MatrixType>(mat));
         }
 
         // Solver object
-        m_eigs = new SymEigsSolver<SVDMatOp<Scalar>>(*m_op, ncomp, ncv);
+        m_eigs = new SymEigsSolver<SVDMatOp<Scalar>>(*op, ncomp, ncv);
+        m_op = op.release();
     }
 
     // Destructor
